@@ -400,13 +400,17 @@ impl<'a> G<'a>
         while (v.len() as u64) < n && tries < 40
         {
             tries += 1;
-            let t = self.any_trig();
+            let mut t = self.any_trig();
+            // a custom-callback system cannot run its cleanup: only triggers without event data
+            if self.no_event(inst) { t = Trig::Resource(self.res3()); }
             if self.used.insert((inst, t)) { v.push(t); }
         }
         // now and then one bundle names the same trigger twice (two registrations of one reactor through one token)
         if !v.is_empty() && v.len() < 6 && self.r.chance(7) { let t = *self.r.pick(&v.clone()); v.push(t); }
         v
     }
+
+    fn no_event(&self, inst: Inst) -> bool { self.insts.get(inst as usize).map(|d| d.flavour == Flavour::CustomCb).unwrap_or(false) }
 
     fn mode(&mut self) -> Mode { match self.r.weighted(&self.c.modes.clone()) { 0 => Mode::Persistent, 1 => Mode::Cleanup, _ => Mode::Revokable } }
 
@@ -466,7 +470,7 @@ impl<'a> G<'a>
             x if x == D::Poll as usize => WOp::Poll,
             x if x == D::Flush as usize => WOp::Flush,
             x if x == D::KillInst as usize => WOp::KillInst(self.target(me)),
-            x if x == D::SysEvent as usize => WOp::SysEvent(self.target(me), self.p()),
+            x if x == D::SysEvent as usize => { let t = self.target(me); if self.no_event(t) { WOp::Run(t) } else { WOp::SysEvent(t, self.p()) } }
             x if x == D::Broadcast as usize => WOp::Broadcast(self.p()),
             x if x == D::EntityEvent as usize => WOp::EntityEvent(s, self.p()),
             x if x == D::TriggerRes as usize => WOp::TriggerRes(self.res3()),
@@ -525,7 +529,7 @@ impl<'a> G<'a>
         Some(match k
         {
             x if x == K::Run as usize => Op::Run(self.target(me)),
-            x if x == K::SysEvent as usize => Op::SysEvent(self.target(me), self.p()),
+            x if x == K::SysEvent as usize => { let t = self.target(me); if self.no_event(t) { Op::Run(t) } else { Op::SysEvent(t, self.p()) } }
             x if x == K::Broadcast as usize => Op::Broadcast(self.p()),
             x if x == K::EntityEvent as usize => Op::EntityEvent(s, self.p()),
             x if x == K::TriggerRes as usize => Op::TriggerRes(self.res3()),
@@ -618,7 +622,7 @@ pub fn generate(seed: u64, base: &Cfg) -> Program
     g.c.pct_hot = base.pct_hot;
     // pre-spawned actors: ids first so scripts can target all of them
     let npre = g.r.range(g.c.pre_insts.0, g.c.pre_insts.1) as usize;
-    for _ in 0..npre { let f = g.flavour(); g.insts.push(InstDef { flavour: f, origin: Origin::Pre, scripts: Vec::new() }); }
+    for _ in 0..npre { let mut f = g.flavour(); if f == Flavour::Plain && g.r.chance(8) { f = Flavour::CustomCb; } g.insts.push(InstDef { flavour: f, origin: Origin::Pre, scripts: Vec::new() }); }
     g.targets = (0..npre as u8).collect();
     let napp = g.r.range(g.c.app_reactors.0, g.c.app_reactors.1) as usize;
     let app_first = g.insts.len();
